@@ -15,7 +15,7 @@ RULE = ('every case is a mix of 2-4 transfers of different kinds on one manager 
         'oracles: (barrier) every future is done when shutdown returns and, after waiting for quiescence, no S3 request, destination '
         'write or subscriber callback carries an event number after the return marker, and no stage thread survives; (isolation) every '
         'transfer that was not disturbed has the same successful outcome and byte-exact effect as in the baseline; (usable) the fresh '
-        'transfer succeeds with the right bytes and every semaphore is back at capacity (C12 probe); non-trivial = the disturbed run '
+        'transfer succeeds with the right bytes and every semaphore is back at capacity (C12 probe); families also: raising on_done at cancelling exits, failures whose cleanup fails too, a failed ranged download while the IO stage is full and wait() leaves early; non-trivial = the disturbed run '
         'actually raised its fault / fired its cancel, or the barrier was evaluated with >=2 transfers unfinished at shutdown time; '
         'distinct = (shape, interleaving signature of the disturbed run)')
 ASSUMPTIONS = ['the wait() loop of the manager leaves at the first failed transfer (DESIGN note N1); the executor joins are what '
